@@ -98,6 +98,24 @@ def cases(tier, seed):
 
 
 def _cases(tier, seed):
+    yield from _square_cases(tier, seed)
+    # non-square block layouts (more columns than rows, more rows than columns, a single row / column): one and two occupied sites and
+    # full occupancy, two data paths, block spec x centre coordinates (seed C09-11: a row stride taken from the wrong axis)
+    two = (dict(red="mean", ncomp=1, w=False), dict(red="average", ncomp=2, w=True))
+    for nbx, nby in ((3, 2), (2, 3), (4, 1), (1, 3)):
+        nsites = 2 * nbx * nby
+        places = [list(ms) for n in (1, 2) for ms in itertools.combinations_with_replacement(range(nsites), n)]
+        places.append(list(range(0, nsites, 2)))
+        places.append(list(range(nsites)))
+        for ms in places:
+            for a in two:
+                for bk in ("spacing", "shape"):
+                    for ce in (False, True):
+                        for order in (("asc", "rev") if len(ms) > 1 else ("asc",)):
+                            yield dict(layout=[nbx, nby], sites=ms, order=order, block=bk, region="given", center=ce, drop=True, form="1d", **a)
+
+
+def _square_cases(tier, seed):
     layouts = [(2, 2)] if tier == "quick" else [(2, 2), (3, 2)]
     nmax = 3 if tier == "quick" else 4
     for nbx, nby in layouts:
